@@ -201,6 +201,12 @@ def main():
             if k % every:
                 continue
             plan.append((f, m))
+    if "--only" in args:
+        # re-run selected mutants (id prefixes "file:line:"), e.g. survivors after a check was strengthened
+        pref = args[args.index("--only") + 1].split(",")
+        plan = [(f, m) for f, m in plan if any(("%s:%d:" % (f, m[0])).startswith(x) or x.startswith("%s:%d:" % (f, m[0]))
+                                               for x in pref)]
+        done = set()
     if limit:
         plan = plan[:limit]
     if "--list" in args:
